@@ -96,7 +96,7 @@ def payloads(rng, tier):
         cb = carried(rows, v0, s)
         L = max(0, rng.choice([cb, cb, cb + 1, cb + 3, 2 * len(s) + 1, 64, cb - 1]))
         yield "decode", {"rows": rows, "v0": v0, "s": s, "L": L, "faster": faster, "vt": vk, "table": table,
-                         "w": w, "tags": [g, sk, vk, tk]}
+                         "w": w, "tags": [g, sk, vk, tk], "reuse": rng.random() < 0.5}
 
 
 def build(stream, p):
@@ -116,16 +116,16 @@ def build(stream, p):
         else:
             vt = formula(base, 3) + "A"
     call = enc_call(21, s2c(s), L, gen.enc_acc(rows), v0, int(faster), gen.enc_opt_str(vt), gen.enc_table(table))
-    arr = gen.acc_array(rows)
     tab = None if table is None else np.array(table, dtype=int)
 
     def run():
+        arr = gen.acc_array(rows, reuse=p.get("reuse", False))
         return dsw.decode(dna_sequence=s, bit_length=L, accessor=arr, start_index=v0, is_faster=faster, vt_check=vt,
                           shuffles=tab)
     impl = lambda: guard(run, lambda r: [[int(x) for x in r]])
     has3 = any(sum(1 for x in r if x >= 0) == 3 for r in rows)
     cb = carried(rows, v0, s)
-    domain = all(ord(c) < 128 for c in s) and (not faster or (not has3 and cb <= L))
+    domain = (not faster or (not has3 and cb <= L))
 
     def oracle(ans, raw):
         if not domain:
